@@ -27,11 +27,12 @@ import (
 	"pgregory.net/rapid"
 
 	"verif/harness/peer"
+	"verif/harness/rpcprops"
 	"verif/harness/stat"
 )
 
 var st = stat.New("C08",
-	"Case = {1..3 proxy objects to one scripted server - either for distinct servant names (separate connections) or all for the same name (as repeated StringToProxy calls: one shared adapter and connection), 1..48 calls issued by 1..48 worker goroutines (a worker issues its calls sequentially, workers run concurrently) each call (a sixth of them one-way: ids from the same sequence, nothing awaited, the reply plan still played against the id) with a unique payload token and a context deadline of 250 or 400 ms (a fifth of the calls: a context without deadline that is cancelled after that time), the process-wide request id counter preset (random, near MaxInt32, near 0 from below), in a quarter of the cases the calls are started one at a time with the id counter advanced so that the ids in flight are 2^8..2^24 apart (congruent modulo the smaller powers of two), in a third of the cases keep-alive pings (one-way tars_ping, ids from the same sequence) sent on the same connections every 2..25 ms while the calls run, per caller a reply plan: 0..3 acts from {own reply, duplicate, reply with the id of another caller, id 0, unknown id, own id marked one-way} with delays 0..40 ms or late (after the deadline), or silence}. Oracle (history invariant over the server log): a caller returns either an error or a response whose serial was sent with id field == the id of its own request and packet type normal; request ids on the wire are never 0 and pairwise distinct within the batch; a caller for whom a correctly addressed reply was written on its connection at least 150 ms before its deadline must succeed. Non-trivial = >=4 calls in flight and >=1 duplicate or foreign-id reply and replies not in request order. Distinct = distinct case JSON.",
+	"Case = {1..3 proxy objects to one scripted server - either for distinct servant names (separate connections) or all for the same name (as repeated StringToProxy calls: one shared adapter and connection), 1..48 calls issued by 1..48 worker goroutines (a worker issues its calls sequentially, workers run concurrently) each call (a sixth of them one-way: ids from the same sequence, nothing awaited, the reply plan still played against the id) with a unique payload token and a context deadline of 250 or 400 ms (a fifth of the calls: a context without deadline that is cancelled after that time), the process-wide request id counter preset (random, near MaxInt32, near 0 from below), in a third of the cases the proxies reach the server through a byte-exact relay that ends TCP segments 1..40 bytes after a packet boundary (one read returns complete replies plus the beginning of the next), in a quarter of the cases the calls are started one at a time with the id counter advanced so that the ids in flight are 2^8..2^24 apart (congruent modulo the smaller powers of two), in a third of the cases keep-alive pings (one-way tars_ping, ids from the same sequence) sent on the same connections every 2..25 ms while the calls run, per caller a reply plan: 0..3 acts from {own reply, duplicate, reply with the id of another caller, id 0, unknown id, own id marked one-way} with delays 0..40 ms or late (after the deadline), or silence}. Oracle (history invariant over the server log): a caller returns either an error or a response whose serial was sent with id field == the id of its own request and packet type normal; request ids on the wire are never 0 and pairwise distinct within the batch; a caller for whom a correctly addressed reply was written on its connection at least 150 ms before its deadline must succeed. Non-trivial = >=4 calls in flight and >=1 duplicate or foreign-id reply and replies not in request order. Distinct = distinct case JSON.",
 	"the scripted server's log is the ground truth; replies may legitimately carry foreign payloads, so payloads are never compared",
 	"schedules are sampled through generated delays, not enumerated; id uniqueness across a full 2^31 wrap is out of reach")
 
@@ -73,6 +74,10 @@ type Case struct {
 	// the ids of the calls in flight are Stride apart - congruent modulo every power of two
 	// up to Stride
 	Stride int32 `json:"stride,omitempty"`
+	// RelayCut k > 0: the proxies reach the server through a byte-exact relay that ends TCP
+	// segments k bytes after a packet boundary, so that one read of the client returns
+	// complete replies followed by the first k bytes of the next one
+	RelayCut int `json:"relay_cut,omitempty"`
 }
 
 func draw(rt *rapid.T) Case {
@@ -81,6 +86,9 @@ func draw(rt *rapid.T) Case {
 	c.IDBase = rapid.OneOf(rapid.Int32(), rapid.Int32Range(math.MaxInt32-60, math.MaxInt32), rapid.Int32Range(-60, 2), rapid.Int32Range(math.MinInt32, math.MinInt32+60)).Draw(rt, "idBase")
 	if rapid.IntRange(0, 2).Draw(rt, "keepalive") == 0 {
 		c.KeepAliveMs = rapid.SampledFrom([]int{2, 7, 25}).Draw(rt, "keepaliveMs")
+	}
+	if rapid.IntRange(0, 2).Draw(rt, "relayed") == 0 {
+		c.RelayCut = rapid.SampledFrom([]int{1, 3, 4, 5, 9, 10, 12, 15, 20, 40}).Draw(rt, "relayCut")
 	}
 	if rapid.IntRange(0, 3).Draw(rt, "strided") == 0 {
 		c.Stride = 1 << rapid.SampledFrom([]uint{8, 10, 12, 14, 16, 20, 24}).Draw(rt, "strideLog")
@@ -124,6 +132,7 @@ var (
 	srvOnce sync.Once
 	srv     *peer.Server
 	comm    *tars.Communicator
+	relay   *rpcprops.Relay
 	objSeq  int64
 )
 
@@ -135,6 +144,10 @@ func setup(t *testing.T) {
 			t.Fatalf("VERIF-INFRA listen: %v", err)
 		}
 		comm = tars.NewCommunicator()
+		relay, err = rpcprops.StartRelay(srv.Addr)
+		if err != nil {
+			t.Fatalf("VERIF-INFRA relay: %v", err)
+		}
 	})
 }
 
@@ -198,11 +211,16 @@ func run(c Case) *stat.Failure {
 		return ok
 	}
 	proxies := make([]*tars.ServantProxy, c.NProxies)
-	shared := fmt.Sprintf("Verif.C08.Obj%d@tcp -h 127.0.0.1 -p %d -t 60000", atomic.AddInt64(&objSeq, 1), srv.Port)
+	port := srv.Port
+	if c.RelayCut > 0 {
+		relay.SetPlan(rpcprops.RelayPlan{Cut: c.RelayCut, HoldUs: 2000})
+		port = relay.Port()
+	}
+	shared := fmt.Sprintf("Verif.C08.Obj%d@tcp -h 127.0.0.1 -p %d -t 60000", atomic.AddInt64(&objSeq, 1), port)
 	for i := range proxies {
 		obj := shared
 		if !c.SharedName {
-			obj = fmt.Sprintf("Verif.C08.Obj%d@tcp -h 127.0.0.1 -p %d -t 60000", atomic.AddInt64(&objSeq, 1), srv.Port)
+			obj = fmt.Sprintf("Verif.C08.Obj%d@tcp -h 127.0.0.1 -p %d -t 60000", atomic.AddInt64(&objSeq, 1), port)
 		}
 		proxies[i] = tars.NewServantProxy(comm, obj)
 	}
@@ -397,6 +415,9 @@ func TestC08(t *testing.T) {
 		}
 		if c.KeepAliveMs > 0 {
 			cls = append(cls, "keep-alive-pings")
+		}
+		if c.RelayCut > 0 {
+			cls = append(cls, "replies-resegmented-by-relay")
 		}
 		if c.Stride > 0 {
 			cls = append(cls, "ids-a-power-of-two-apart")
